@@ -400,6 +400,13 @@ class Component(Spatialable):
 
     model_config = ConfigDict(arbitrary_types_allowed=True)
 
+    _cost_inputs: dict = PrivateAttr(default_factory=dict)
+    """
+    For each cost that ``Spec.calculate_component_costs`` has written into this component
+    (area, leak_power, per-action energy and throughput): the value it started from and
+    the value it wrote. Lets the costs be recalculated without applying scales twice.
+    """
+
     def _update_actions(self, new_actions: EvalableList[Action]):
         has_actions = oset(x.name for x in self.actions)
         for action in new_actions:
